@@ -488,6 +488,10 @@ def reverse_attribute_aliases(repo, ref):
                 if ch is None or len(ch) != 2 or ch[0] != "self" or L in ref_locals or L in nested or L in fi.params:
                     continue
                 X = ch[1]
+                # a local that is itself an alias of an attribute chain (salt = msg.salt) is put back by inline_new_aliases instead
+                binds = [x for x in walk_own(fi.node) if isinstance(x, ast.Name) and x.id == L and isinstance(x.ctx, ast.Store)]
+                if any(isinstance(getattr(b_, "_parent", None), ast.Assign) and _chain(b_._parent.value) is not None and b_._parent.targets[0] is b_ for b_ in binds):
+                    continue
                 later = [x for s_ in blk[i + 1:] for x in ast.walk(s_)]
                 later_ids = {id(x) for x in later}
                 loads = [x for x in later if isinstance(x, ast.Name) and x.id == L and isinstance(x.ctx, ast.Load)]
